@@ -56,6 +56,26 @@ static inline const std::vector<std::string> & opml_corpus() {
 	return c;
 }
 
+// iThoughts map documents (valid input for EXT_PARSE_ITMZ): a small fixed set kept under /verif/sim/data, produced once with the
+// baseline CLI (-t itmz, mapdata.xml of the archive) from corpus documents
+static inline const std::vector<std::string> & itmz_corpus() {
+	static std::vector<std::string> c;
+	static bool loaded = false;
+	if (loaded) return c;
+	loaded = true;
+	const char * root = getenv("MMDSIM_VERIF");
+	std::string dir = std::string(root ? root : "/verif") + "/sim/data";
+	for (int i = 0; i < 64; i++) {
+		char name[64];
+		snprintf(name, sizeof name, "/itmz-%02d.xml", i);
+		std::ifstream f(dir + name, std::ios::binary);
+		if (!f) break;
+		std::stringstream ss; ss << f.rdbuf();
+		c.push_back(ss.str());
+	}
+	return c;
+}
+
 struct DocOpts {
 	bool meta = true, emails = true, notes = true, images = false, critic = true, toc = true, tables = true, html = true, math = true;
 	int blocks_min = 1, blocks_max = 12;
